@@ -337,6 +337,24 @@ func EQZ(t *Term) *Term {
 	if r := eqzSmallSym(t); r != nil {
 		return r
 	}
+	// a sum of non-negative atoms with positive coefficients is zero iff every atom is: unit coefficients
+	if len(t.mons) >= 2 {
+		if symZeroSet(t) {
+			unit := true
+			for _, m := range t.mons {
+				if m.c.Cmp(bigOne) != 0 {
+					unit = false
+				}
+			}
+			if !unit {
+				u := TInt(0)
+				for _, m := range t.sortedMons() {
+					u = u.Add(TAtom(m.atom))
+				}
+				return EQZ(u)
+			}
+		}
+	}
 	// normalise: divide by the gcd, make the first coefficient positive
 	ms := t.sortedMons()
 	g := new(big.Int)
@@ -356,6 +374,38 @@ func EQZ(t *Term) *Term {
 	// field-level equalities
 	if a := t.SingleAtom(); a != nil {
 		if a.Kind == IWOp && a.Op == "or" {
+			// arguments that are selections ite(P, x, y): decide per truth assignment of the selectors
+			var sel []*PAtom
+			seenP := map[*PAtom]bool{}
+			for _, x := range a.Args {
+				for _, m := range x.mons {
+					for _, p := range m.preds {
+						if !seenP[p] {
+							seenP[p] = true
+							sel = append(sel, p)
+						}
+					}
+				}
+			}
+			if len(sel) > 0 && len(sel) <= 3 {
+				if r := interp(sel, func(as map[*PAtom]bool) *Term {
+					args := make([]*Term, len(a.Args))
+					for i, x := range a.Args {
+						y := x
+						for p, v := range as {
+							y = y.SubstPred(p, v)
+						}
+						args[i] = y
+					}
+					o := args[0]
+					for _, y := range args[1:] {
+						o = wOr(o, y, a.Idx)
+					}
+					return EQZ(o)
+				}); r != nil {
+					return r
+				}
+			}
 			if ch := completeChain(a.Args); ch != nil {
 				return EQZ(ch.A.Sub(ch.B))
 			}
@@ -891,13 +941,63 @@ func completeChain(args []*Term) *Chain {
 }
 
 
-// dropLtEq removes monomials that contain both [A < B] and [A = B] (mutually exclusive).
+// zeroSet returns the atoms that [e = 0] forces to zero when e is a sum of non-negative atoms with positive
+// coefficients (nil otherwise).
+func zeroSet(e *Term) map[*IAtom]bool {
+	zs := map[*IAtom]bool{}
+	for _, m := range e.mons {
+		if m.atom == nil || len(m.preds) > 0 || m.c.Sign() <= 0 || m.atom.Lo.Sign() < 0 {
+			return nil
+		}
+		zs[m.atom] = true
+	}
+	if len(zs) == 0 {
+		return nil
+	}
+	return zs
+}
+
+// symZeroSet: e is a positive combination of plain non-negative symbols.
+func symZeroSet(e *Term) bool {
+	if zeroSet(e) == nil {
+		return false
+	}
+	for _, m := range e.mons {
+		if m.atom.Kind != ISym {
+			return false
+		}
+	}
+	return true
+}
+
+// valueUnder returns the constant value of d where [e = 0] holds, if that determines it: either e forces every atom
+// of d to zero, or d = α·e + β.
+func valueUnder(d, e *Term) (*big.Int, bool) {
+	if zs := zeroSet(e); zs != nil {
+		r := new(big.Int)
+		for _, m := range d.mons {
+			if m.atom == nil && len(m.preds) == 0 {
+				r.Add(r, m.c)
+				continue
+			}
+			if m.atom != nil && zs[m.atom] {
+				continue
+			}
+			return residueUnder(d, e)
+		}
+		return r, true
+	}
+	return residueUnder(d, e)
+}
+
+// dropLtEq applies the relations between comparison atoms inside one monomial: [A < B]·[A = B] = 0; under [E = 0] a
+// test [E' = 0] or [A < B] whose operand is determined (valueUnder) is replaced by its value.
 func (t *Term) dropLtEq() *Term {
 	has := false
 	for _, m := range t.mons {
 		if len(m.preds) >= 2 {
 			for _, p := range m.preds {
-				if p.Kind == PLT {
+				if p.Kind == PLT || p.Kind == PEQZ {
 					has = true
 				}
 			}
@@ -907,29 +1007,109 @@ func (t *Term) dropLtEq() *Term {
 		return t
 	}
 	out := newTerm()
+	changed := false
 	for _, m := range t.mons {
 		drop := false
-		for _, p := range m.preds {
-			if p.Kind != PLT {
-				continue
-			}
-			eq := EQ(p.A, p.B).SinglePred()
-			if eq == nil {
-				continue
-			}
-			for _, q := range m.preds {
-				if q == eq {
-					drop = true
+		keep := append([]*PAtom{}, m.preds...)
+		remove := func(q *PAtom) {
+			for i, k := range keep {
+				if k == q {
+					keep = append(append([]*PAtom{}, keep[:i]...), keep[i+1:]...)
+					return
 				}
 			}
 		}
-		if !drop {
-			out.addMon(m.c, m.preds, m.atom)
+		for _, p := range m.preds {
+			if drop {
+				break
+			}
+			switch p.Kind {
+			case PLT:
+				eq := EQ(p.A, p.B).SinglePred()
+				if eq == nil {
+					continue
+				}
+				for _, q := range m.preds {
+					if q == eq {
+						drop = true
+					}
+				}
+			case PEQZ:
+				for _, q := range m.preds {
+					if q == p {
+						continue
+					}
+					switch q.Kind {
+					case PEQZ:
+						if v, ok := valueUnder(q.A, p.A); ok {
+							if v.Sign() != 0 {
+								drop = true
+							} else {
+								remove(q)
+								changed = true
+							}
+						}
+					case PLT:
+						if beta, ok := valueUnder(q.B.Sub(q.A), p.A); ok {
+							if beta.Sign() > 0 {
+								remove(q)
+								changed = true
+							} else {
+								drop = true
+							}
+						}
+					}
+				}
+			}
 		}
+		if drop {
+			changed = true
+			continue
+		}
+		out.addMon(m.c, keep, m.atom)
+	}
+	if !changed {
+		return t
 	}
 	return out
 }
 
+// residueUnder returns β when d = α·e + β for constants α, β (the value of d where e = 0).
+func residueUnder(d, e *Term) (*big.Int, bool) {
+	var lead *mon
+	for _, m := range e.sortedMons() {
+		if m.atom != nil || len(m.preds) > 0 {
+			lead = m
+			break
+		}
+	}
+	if lead == nil {
+		return nil, false
+	}
+	var dc *big.Int
+	for _, m := range d.mons {
+		if m.atom == lead.atom && len(m.preds) == len(lead.preds) {
+			same := true
+			for i := range m.preds {
+				if m.preds[i] != lead.preds[i] {
+					same = false
+				}
+			}
+			if same {
+				dc = m.c
+			}
+		}
+	}
+	if dc == nil {
+		return nil, false
+	}
+	alpha, rem := new(big.Int).QuoRem(dc, lead.c, new(big.Int))
+	if rem.Sign() != 0 {
+		return nil, false
+	}
+	r := d.Sub(e.Scale(alpha))
+	return r.IsConst()
+}
 
 // TrichoNorm rewrites every top-level [A < B] whose operands are in non-canonical order as 1 - [B < A] - [A = B]
 // (exactly one of the three holds), so that two spellings of one comparison have one normal form.
@@ -955,7 +1135,6 @@ func TrichoNorm(t *Term) *Term {
 	}
 	return out.norm()
 }
-
 
 // eqzSmallSym decides [t = 0] for a term built with word operations over ONE symbol of small range (a byte) by
 // evaluating t at every value of the symbol: the result is the disjunction of the (mutually exclusive) [sym = v].
@@ -1057,5 +1236,42 @@ func eqzSmallSym(t *Term) *Term {
 	for _, v := range zeros {
 		out = out.Add(EQ(TAtom(sym), TInt(v)))
 	}
+	return out
+}
+
+// Syms collects the plain symbols a term mentions, also inside its comparison atoms and word operations.
+func (t *Term) Syms() map[*IAtom]bool {
+	out := map[*IAtom]bool{}
+	var walkT func(t *Term)
+	var walkA func(a *IAtom)
+	seenT := map[*Term]bool{}
+	walkA = func(a *IAtom) {
+		switch a.Kind {
+		case ISym:
+			out[a] = true
+		case ILimb, IByte, INzFold:
+			walkT(a.T)
+		case IWOp:
+			for _, x := range a.Args {
+				walkT(x)
+			}
+		}
+	}
+	walkT = func(t *Term) {
+		if t == nil || seenT[t] {
+			return
+		}
+		seenT[t] = true
+		for _, m := range t.mons {
+			if m.atom != nil {
+				walkA(m.atom)
+			}
+			for _, p := range m.preds {
+				walkT(p.A)
+				walkT(p.B)
+			}
+		}
+	}
+	walkT(t)
 	return out
 }
